@@ -1480,8 +1480,12 @@ func c06RandOp(rng *rand.Rand, meta bool) string {
 		return "push " + c06U32Pairs(rng)
 	case r < 89:
 		return "u32del " + c06U32Pairs(rng)
-	case r < 92:
+	case r < 90:
 		return "size " + c06Pick(rng, c06Keys)
+	case r < 92:
+		// PatchTreasures (metadata only): it can summon, and with CreateIfNotExist create, a swamp
+		ki := rng.Intn(len(c06Keys))
+		return "patch " + c06Pick(rng, []string{"0", "0", "1"}) + " " + c06Keys[ki] + " " + c30Meta(rng, ki)
 	case r < 95:
 		return "hasval " + c06Pick(rng, c06Keys) + " " + c06Pick(rng, []string{"1", "2", "7"})
 	default:
@@ -1497,6 +1501,8 @@ type c06CorpusCase struct {
 }
 
 var c06Corpus = []c06CorpusCase{
+	// PatchTreasures without CreateIfNotExist on a swamp that does not exist leaves nothing behind
+	{[]string{"mem", "p1"}, []string{"patch 0 k0 0||0|u1||0", "issw", "count", "mcount", "set 01 k0|i64:1|||||", "issw", "patch 1 k0 0||0|u1||0", "issw", "getall", "del k0", "issw"}},
 	// conditions on stored values beyond the sign bit of their width (an unsigned comparison through a signed cast fails here)
 	{[]string{"mem"}, []string{"set 11 k0|u64:9223372036854775809||||| k1|u32:2147483649||||| k2|u16:32769||||| k3|u8:129||||| k4|i64:-9223372036854775808|||||",
 		"inc u64 k0 1 gt:5 - -", "inc u64 k0 1 lt:5 - -", "inc u64 k0 1 ge:9223372036854775808 - -", "inc u64 k0 1 le:9223372036854775807 - -",
